@@ -50,6 +50,12 @@ func (o *objectIncludeStrategy) evaluate(m *MethodEvaluator) error {
 			base.ClassNode{Frame: parentFrame, Class: parentClass, IsInclude: true}
 	}
 
+	// include/extend without an argument (or naming the enclosing scope itself)
+	// would make the scope its own ancestor and ancestor walks recurse forever
+	if parentNode.Frame == classNode.Frame && parentNode.Class == classNode.Class {
+		return nil
+	}
+
 	if slices.Contains(base.ClassInheritanceMap[classNode], parentNode) {
 		return nil
 	}
